@@ -97,10 +97,21 @@ def analyze(run: Any) -> dict[str, list[str]]:  # noqa: C901
         del recent_eff[T][:-12]
         return e
 
+    # C05: scopes during whose activity an enclosing scope was effectively cancelled at some observation.
+    # A delivery of that enclosing scope may have hit the task; it is paid back by *that* scope's exit (or,
+    # when the scope is hosted by another task, by nobody: `nForeign` in theorem C05_restored), not by the
+    # exit of the inner scope - so if the enclosing cancellation is hidden behind a shield raised afterwards,
+    # "back at the value on entry" is not what the inner exit owes.
+    c05_taint: set[int] = set()
+
     for idx, ent in enumerate(hist):
         now, cycle, fl, kind = ent[0], ent[1], ent[2], ent[3]
         a = ent[4:]
         m.flags(fl)
+        for L_, d_ in m.sc.items():
+            if d_.get("active") and L_ not in c05_taint and d_.get("parent") is not None \
+                    and m.effective(d_["parent"]):
+                c05_taint.add(L_)
         for g_ in m.groups.values():
             # "siblings cancelled": from the moment a failure exists, the group scope is cancelled or
             # effectively cancelled (what the code tests before cancelling it) at some observation
@@ -175,7 +186,7 @@ def analyze(run: Any) -> dict[str, list[str]]:  # noqa: C901
             if prev is not None and prev[3] == "exit" and prev[5] == T:
                 L = prev[4]
                 ent0 = m.sc[L].get("c05")
-                if ent0 is not None and not m.effective(m.task_scope.get(T)):
+                if ent0 is not None and L not in c05_taint and not m.effective(m.task_scope.get(T)):
                     _, c0, n0, u0 = ent0
                     want = c0 + (natives[T] - n0) - (uncancels[T] - u0)
                     if n != max(want, 0):
